@@ -1,2 +1,802 @@
-// Package c03: check for property C03 (see /verif/DESIGN.md §3 C03).
+// Package c03: fields a chain does not assign pass through byte-for-byte.
+//
+// Pure law, no model: for every input record and every verb chain / DSL
+// program that reads but does not assign a field, the output text of that
+// field equals its input text and its position among the surviving original
+// fields is unchanged. Two exhaustive grids on the real pipeline (in-process
+// mlr invocations, many spellings per invocation):
+//
+//	readers: EVERY reader template (walked from the verb lookup table and the
+//	         builtin-function table, plus hand-written DSL forms and chains)
+//	         x inference flag x format pair x position of x x a spelling set
+//	spell:   EVERY string over the numeric alphabet up to a length bound
+//	         x the core readers x inference flag
 package c03
+
+import (
+	"encoding/json"
+	"fmt"
+	"os"
+	"path/filepath"
+	"regexp"
+	"sort"
+	"strconv"
+	"strings"
+	"time"
+
+	"verif/harness/vf"
+)
+
+func init() {
+	vf.Register(&vf.CheckDef{ID: "C03", Level: "model_checking", Run: run,
+		Workers: map[string]vf.WorkerFunc{"readers": readersWorker, "spell": spellWorker}})
+}
+
+var inferFlags = []string{"", "-S", "-A", "-O"}
+
+type layout struct {
+	name  string
+	order []string // logical field names
+}
+
+var layouts = []layout{
+	{"mid", []string{"id", "y", "x", "w", "z"}},
+	{"13th", []string{"id", "y", "w", "z", "g1", "g2", "g3", "g4", "g5", "g6", "g7", "g8", "x", "g9"}},
+	{"first", []string{"x", "id", "y", "w", "z"}},
+	{"last", []string{"id", "y", "w", "z", "x"}},
+}
+
+type poolArgs struct {
+	Deadline int64 `json:"deadline"` // unix seconds; 0 = none
+	MaxLen   int   `json:"maxlen"`   // spell grid: every string up to this length
+	S2Len    int   `json:"s2len"`    // readers grid: every string up to this length joins the boundary and nasty lists
+}
+
+// ---------------------------------------------------------------- instance of a template
+
+type inst struct {
+	t        *tmpl
+	f        *format
+	l        *layout
+	flag     string
+	mainOpt  []string
+	actual   map[string]string // logical -> actual input field name
+	order    []string          // actual names in input order
+	logical  map[string]string // actual -> logical
+	assigned map[string]bool   // actual names
+	assEmpty map[string]bool
+	allEmpty bool
+	moved    map[string]bool
+	allMoved bool
+	outName  map[string]string // actual input name -> output name
+	argv     []string          // without output-format flags
+	tmpPref  string
+}
+
+var dslFieldRe = regexp.MustCompile(`\$(id|x|y|w|z)\b`)
+
+func newInst(t *tmpl, f *format, l *layout, flag string, mainOpt []string) *inst {
+	in := &inst{t: t, f: f, l: l, flag: flag, mainOpt: mainOpt, actual: map[string]string{}, logical: map[string]string{},
+		assigned: map[string]bool{}, assEmpty: map[string]bool{}, moved: map[string]bool{}, outName: map[string]string{}}
+	for i, n := range l.order {
+		a := n
+		if f.in == "nidx" {
+			a = strconv.Itoa(i + 1)
+		}
+		in.actual[n] = a
+		in.logical[a] = n
+		in.order = append(in.order, a)
+		in.outName[a] = a
+	}
+	pos := func(n string) string {
+		for i, o := range l.order {
+			if o == n {
+				return strconv.Itoa(i + 1)
+			}
+		}
+		return "0"
+	}
+	rev := make([]string, len(in.order))
+	for i, a := range in.order {
+		rev[len(in.order)-1-i] = a
+	}
+	ljid := in.actual["id"]
+	if t.left == "x" {
+		ljid = in.actual["x"]
+	}
+	if f.in == "nidx" {
+		ljid = "1"
+	}
+	in.tmpPref = filepath.Join("/dev/shm", fmt.Sprintf("verif-c03-%d-split", os.Getpid()))
+	rep := strings.NewReplacer(
+		"{id}", in.actual["id"], "{x}", in.actual["x"], "{y}", in.actual["y"], "{w}", in.actual["w"], "{z}", in.actual["z"],
+		"{X}", strings.ToUpper(in.actual["x"]), "{all}", strings.Join(in.order, ","), "{rev}", strings.Join(rev, ","),
+		"{xpos}", pos("x"), "{ypos}", pos("y"), "{ljid}", ljid, "{tmp}", in.tmpPref)
+	for _, n := range t.assigns {
+		in.assigned[in.actual[n]] = true
+	}
+	for _, n := range t.assignsEmpty {
+		if n == "*" {
+			in.allEmpty = true
+		} else {
+			in.assEmpty[in.actual[n]] = true
+		}
+	}
+	for _, n := range t.moves {
+		if n == "*" {
+			in.allMoved = true
+		} else {
+			in.moved[in.actual[n]] = true
+		}
+	}
+	for from, to := range t.renames {
+		in.outName[in.actual[from]] = to
+	}
+	if t.firstRenamed != "" {
+		in.outName[in.order[0]] = t.firstRenamed
+	}
+	if flag != "" {
+		in.argv = append(in.argv, flag)
+	}
+	in.argv = append(in.argv, t.mainFlags...)
+	in.argv = append(in.argv, mainOpt...)
+	in.argv = append(in.argv, f.inFlags...)
+	for _, a := range t.args {
+		a = dslFieldRe.ReplaceAllStringFunc(a, func(m string) string { return "${" + in.actual[m[1:]] + "}" })
+		in.argv = append(in.argv, rep.Replace(a))
+	}
+	return in
+}
+
+// full argv: main flags, output flags inserted before the verb chain.
+func (in *inst) command(ouFlags []string) []string {
+	n := 0
+	if in.flag != "" {
+		n++
+	}
+	n += len(in.t.mainFlags) + len(in.mainOpt) + len(in.f.inFlags)
+	out := append([]string{}, in.argv[:n]...)
+	out = append(out, ouFlags...)
+	out = append(out, in.argv[n:]...)
+	return out
+}
+
+// records of a batch in the instance's layout.
+func (in *inst) records(batch []string) [][]kv {
+	recs := make([][]kv, len(batch))
+	n := len(batch)
+	for i, s := range batch {
+		r := make([]kv, 0, len(in.order))
+		for _, a := range in.order {
+			var v string
+			switch ln := in.logical[a]; ln {
+			case "id":
+				v = "r" + strconv.Itoa(i)
+			case "x":
+				v = s
+			case "y":
+				v = strconv.Itoa(1 + i%3)
+			case "w":
+				v = batch[(i+1)%n]
+			case "z":
+				v = "p:" + strconv.Itoa(i) + ";q:" + strconv.Itoa(i)
+			default: // fillers g1..g9: floats with a trailing zero, themselves unassigned pass-through values
+				v = ln[1:] + "." + strconv.Itoa(i) + "0"
+			}
+			r = append(r, kv{a, v})
+		}
+		recs[i] = r
+	}
+	return recs
+}
+
+func (in *inst) files(batch []string) vf.VFS {
+	if in.t.left == "" {
+		return nil
+	}
+	var recs [][]kv
+	if in.t.left != "empty" {
+		jn := in.actual["id"]
+		if in.t.left == "x" {
+			jn = in.actual["x"]
+		}
+		if in.f.in == "nidx" {
+			jn = "1"
+		}
+		for i, s := range batch {
+			jv := "r" + strconv.Itoa(i)
+			if in.t.left == "x" {
+				jv = s
+			}
+			recs = append(recs, []kv{{jn, jv}, {"lf", "L" + strconv.Itoa(i)}})
+		}
+	}
+	return vf.VFS{"LEFT": encode(in.f.in, recs)}
+}
+
+// ---------------------------------------------------------------- running and judging
+
+type runner struct {
+	w        *vf.Worker
+	deadline int64
+	over     bool
+}
+
+func (r *runner) overBudget() bool {
+	if r.over {
+		return true
+	}
+	if r.deadline > 0 && time.Now().Unix() > r.deadline {
+		r.over = true
+	}
+	return r.over
+}
+
+func symCounts(s string, acc *[256]int64) {
+	for i := 0; i < len(s); i++ {
+		acc[s[i]]++
+	}
+}
+
+type tally struct {
+	xCompared, otherCompared, assignedSkipped, unidentified, outRecs, rejected, runs, failedRuns, nidxUnaligned int64
+	sym                                                                                                      [256]int64
+}
+
+// runBatch runs one invocation on the batch; a failed run (the reader rejected
+// some input: nothing to assert) is bisected down to single records, within a
+// budget of failed runs per instance.
+func (r *runner) runBatch(in *inst, batch []string, tl *tally, failBudget *int) {
+	if len(batch) == 0 {
+		return
+	}
+	if *failBudget <= 0 {
+		tl.rejected += int64(len(batch))
+		return
+	}
+	recs := in.records(batch)
+	input := encode(in.f.in, recs)
+	files := in.files(batch)
+	cmd := in.command(in.f.ouFlags)
+	res := vf.RunMlr(cmd, vf.MlrOpts{Stdin: &input, Files: files})
+	tl.runs++
+	r.w.Eval(1)
+	var shape [][]kv
+	if res.OK() && in.f.out == "nidx" {
+		// key structure of the output records from a second run with a keyed writer; only the KEYS are used
+		res2 := vf.RunMlr(in.command([]string{"--odkvp"}), vf.MlrOpts{Stdin: &input, Files: files})
+		tl.runs++
+		if !res2.OK() {
+			res = res2
+		} else {
+			shape = decode("dkvp", res2.Stdout)
+		}
+	}
+	if in.t.tmpfile {
+		if m, _ := filepath.Glob(in.tmpPref + "*"); len(m) > 0 {
+			for _, p := range m {
+				os.Remove(p)
+			}
+		}
+	}
+	if res.Panic != "" {
+		r.w.Violation(fmt.Sprintf("L%02d panic[%s](%s | %s | %s | %s)", len(batch[0]), in.t.verb, in.t.name, in.flag, in.f.name, in.l.name),
+			fmt.Sprintf("mlr %s panics: %s", strings.Join(cmd, " "), res.Panic), map[string]any{"argv": cmd, "stdin": input, "files": files, "panic": res.Panic, "stack": res.Stack})
+		return
+	}
+	if !res.OK() {
+		tl.failedRuns++
+		*failBudget--
+		if len(batch) == 1 {
+			tl.rejected++
+			r.w.AddSet("reject-reasons", in.t.verb+": "+firstLine(res.Stderr+res.Err))
+			return
+		}
+		h := len(batch) / 2
+		r.runBatch(in, batch[:h], tl, failBudget)
+		r.runBatch(in, batch[h:], tl, failBudget)
+		return
+	}
+	out := decode(in.f.out, res.Stdout)
+	if in.f.out == "nidx" {
+		if len(shape) != len(out) {
+			tl.nidxUnaligned += int64(len(out))
+			return
+		}
+		for i := range out {
+			if len(out[i]) != len(shape[i]) {
+				tl.nidxUnaligned++
+				out[i] = nil
+				continue
+			}
+			for j := range out[i] {
+				out[i][j].k = shape[i][j].k
+			}
+		}
+	}
+	r.judge(in, batch, recs, out, cmd, input, tl)
+}
+
+func firstLine(s string) string {
+	s = strings.TrimSpace(s)
+	if i := strings.IndexByte(s, '\n'); i >= 0 {
+		s = s[:i]
+	}
+	if len(s) > 90 {
+		s = s[:90]
+	}
+	// drop the data-dependent part
+	if i := strings.IndexAny(s, "\"'"); i > 0 {
+		s = s[:i]
+	}
+	return s
+}
+
+func (r *runner) judge(in *inst, batch []string, recs [][]kv, out [][]kv, cmd []string, input string, tl *tally) {
+	idOut := in.outName[in.actual["id"]]
+	xName := in.actual["x"]
+	for _, orec := range out {
+		if orec == nil {
+			continue
+		}
+		tl.outRecs++
+		idx := -1
+		for _, p := range orec {
+			if p.k == idOut {
+				if len(p.v) >= 2 && p.v[0] == 'r' {
+					if n, err := strconv.Atoi(p.v[1:]); err == nil && n >= 0 && n < len(recs) && p.v == "r"+strconv.Itoa(n) {
+						idx = n
+					}
+				}
+				break
+			}
+		}
+		if idx < 0 {
+			tl.unidentified++
+			continue
+		}
+		irec := recs[idx]
+		lastPos := -1
+		orderBroken := ""
+		for _, ip := range irec {
+			name := ip.k
+			if in.assigned[name] || ((in.allEmpty || in.assEmpty[name]) && ip.v == "") {
+				tl.assignedSkipped++
+				continue
+			}
+			on := in.outName[name]
+			pos := -1
+			for j, op := range orec {
+				if op.k == on {
+					pos = j
+					break
+				}
+			}
+			if pos < 0 {
+				if name == xName {
+					r.viol(in, "missing", batch[idx], cmd, input, fmt.Sprintf("output record of input record %d (id r%d) has no field %q; x was %q; output record %v", idx, idx, on, ip.v, orec))
+				}
+				continue
+			}
+			got := orec[pos].v
+			if got != ip.v {
+				what := "x"
+				if name != xName {
+					what = in.logical[name]
+				}
+				r.viol(in, "text", batch[idx], cmd, input, fmt.Sprintf("field %s (%s) of record id r%d: input text %q, output text %q", on, what, idx, ip.v, got))
+			} else if name == xName {
+				tl.xCompared++
+				symCounts(ip.v, &tl.sym)
+			} else {
+				tl.otherCompared++
+			}
+			if !in.allMoved && !in.moved[name] {
+				if pos < lastPos && orderBroken == "" {
+					orderBroken = on
+				}
+				if pos > lastPos {
+					lastPos = pos
+				}
+			}
+		}
+		if orderBroken != "" {
+			r.viol(in, "order", batch[idx], cmd, input, fmt.Sprintf("field %s of record id r%d moved relative to the other surviving original fields: input order %v, output record %v", orderBroken, idx, in.order, orec))
+		}
+	}
+}
+
+func (r *runner) viol(in *inst, kind, spelling string, cmd []string, input string, what string) {
+	key := fmt.Sprintf("L%02d %s[%s](%s | %s | %s | %s | %q)", len(spelling), kind, in.t.verb, in.t.name, in.flag, in.f.name, in.l.name, spelling)
+	if len(input) > 6000 {
+		input = input[:6000] + "...(truncated)"
+	}
+	r.w.Violation(key, fmt.Sprintf("mlr %s: %s", shellJoin(cmd), what), map[string]any{"argv": cmd, "stdin": input, "spelling": spelling, "what": what})
+}
+
+func shellJoin(a []string) string {
+	var sb strings.Builder
+	for i, s := range a {
+		if i > 0 {
+			sb.WriteByte(' ')
+		}
+		if s != "" && !strings.ContainsAny(s, " \t\n'\"$*?()[]{}|&;<>\\!#~`") {
+			sb.WriteString(s)
+		} else {
+			sb.WriteString("'" + strings.ReplaceAll(s, "'", `'\''`) + "'")
+		}
+	}
+	return sb.String()
+}
+
+func (r *runner) flush(in *inst, tl *tally) {
+	w := r.w
+	w.Nontrivial(tl.xCompared)
+	c := func(k string, n int64) {
+		if n != 0 {
+			w.Count(k, n)
+		}
+	}
+	c("x_cells_compared", tl.xCompared)
+	c("other_unassigned_cells_compared", tl.otherCompared)
+	c("assigned_cells_skipped", tl.assignedSkipped)
+	c("output_records", tl.outRecs)
+	c("output_records_without_input_id(skipped)", tl.unidentified)
+	c("records_rejected_by_reader(no output, nothing asserted)", tl.rejected)
+	c("mlr_invocations", tl.runs)
+	c("mlr_invocations_failed(bisected)", tl.failedRuns)
+	c("nidx_records_unaligned(skipped)", tl.nidxUnaligned)
+	c("verb:"+in.t.verb, tl.xCompared)
+	c("flag:"+flagName(in.flag), tl.xCompared)
+	c("format:"+in.f.name, tl.xCompared)
+	c("layout:"+in.l.name, tl.xCompared)
+	g := in.t.group
+	if i := strings.IndexByte(g, ':'); i >= 0 {
+		c("fn:"+g[i+1:], tl.xCompared)
+		g = g[:i]
+	}
+	c("group:"+g, tl.xCompared)
+	if len(in.mainOpt) > 0 {
+		c("mainopt:"+strings.Join(in.mainOpt, " "), tl.xCompared)
+	}
+	for i := 0; i < len(alphabet); i++ {
+		c("sym:"+string(alphabet[i]), tl.sym[alphabet[i]])
+	}
+	if tl.xCompared > 0 {
+		w.AddSet("templates-effective", in.t.name)
+	} else {
+		w.AddSet("templates-silent", in.t.name+" @ "+in.f.name)
+	}
+	if tl.unidentified > 0 && !in.t.foreign {
+		w.AddSet("templates-with-unidentified-output", in.t.name)
+	}
+}
+
+func flagName(f string) string {
+	if f == "" {
+		return "default"
+	}
+	return f
+}
+
+// ---------------------------------------------------------------- spelling sets
+
+func s2(maxLen int) []string {
+	seen := map[string]bool{}
+	var out []string
+	add := func(s string) {
+		if !seen[s] {
+			seen[s] = true
+			out = append(out, s)
+		}
+	}
+	n := countStrings(maxLen)
+	for k := uint64(0); k < n; k++ {
+		add(nthString(k))
+	}
+	for _, s := range boundaryList() {
+		add(s)
+	}
+	for _, s := range nastyStrings() {
+		add(s)
+	}
+	return out
+}
+
+func domainFilter(in *inst, all []string) (keep []string, excluded int64) {
+	for _, s := range all {
+		ok := in.f.inDomain(s)
+		if ok && in.t.numericOnly && !looksNumeric(s) {
+			ok = false
+		}
+		if ok && in.t.valueOK != nil && !in.t.valueOK(s) {
+			ok = false
+		}
+		if ok {
+			keep = append(keep, s)
+		} else {
+			excluded++
+		}
+	}
+	return
+}
+
+// ---------------------------------------------------------------- workers
+
+const batchB = 256
+
+// readers grid: one case per (template, inference flag, format, layout[, extra main option]).
+func readersWorker(w *vf.Worker) {
+	var a poolArgs
+	json.Unmarshal(w.Args, &a)
+	cat := buildCatalogue()
+	S := s2(a.S2Len)
+	r := &runner{w: w, deadline: a.Deadline}
+	var idx uint64
+	type extra struct{ opt []string }
+	extras := [][]string{{"--records-per-batch", "1"}, {"--no-hash-records"}, {"--hash-records"}, {"--nr-progress-mod", "1000000"}, {"--no-auto-flatten"}, {"--no-auto-unflatten"}, {"--infer-none"}, {"--infer-int-as-float"}, {"--infer-octal"}, {"--no-dedupe-field-names"}, {"--fflatsep", ":"}, {"--load", "/dev/null"}}
+	only := os.Getenv("VERIF_C03_ONLY") // debugging: substring of the template name
+	runCase := func(t *tmpl, f *format, l *layout, flag string, opt []string) {
+		idx++
+		if !w.Mine(idx) {
+			return
+		}
+		if only != "" && !strings.Contains(t.name, only) {
+			return
+		}
+		if r.overBudget() {
+			w.Inexhaustive("readers grid: time budget reached; remaining cases skipped")
+			return
+		}
+		w.Begin(idx)
+		w.Label(func() string { return fmt.Sprintf("%s | %s | %s | %s | %v", t.name, flag, f.name, l.name, opt) })
+		in := newInst(t, f, l, flag, opt)
+		keep, excl := domainFilter(in, S)
+		w.Count("spellings_outside_format_or_verb_domain(excluded)", excl)
+		w.Count("spellings_inside_domain", int64(len(keep)))
+		var tl tally
+		budget := 48
+		for i := 0; i < len(keep); i += batchB {
+			j := i + batchB
+			if j > len(keep) {
+				j = len(keep)
+			}
+			r.runBatch(in, keep[i:j], &tl, &budget)
+			w.Heartbeat()
+		}
+		if budget <= 0 {
+			w.AddSet("templates-rejecting-most-input", t.name)
+		}
+		r.flush(in, &tl)
+	}
+	for _, t := range cat.templates {
+		for fi := range formats {
+			f := &formats[fi]
+			if t.hetero && (f.out == "csv" || f.out == "tsv" || f.out == "nidx") {
+				continue
+			}
+			if t.light && fi > 1 {
+				continue
+			}
+			for li := range layouts {
+				l := &layouts[li]
+				if t.light && li > 1 {
+					continue
+				}
+				for _, flag := range inferFlags {
+					if t.group == "chain" && t.light && (fi > 0 || li > 0) {
+						continue
+					}
+					runCase(t, f, l, flag, nil)
+				}
+			}
+		}
+		if !t.light && t.group != "chain" {
+			for _, opt := range extras {
+				for li := 0; li < 2; li++ {
+					runCase(t, &formats[0], &layouts[li], "", opt)
+				}
+			}
+		}
+	}
+	if w.Shard == 0 {
+		w.Sample(map[string]any{"grid": "readers", "argv": newInst(cat.templates[100], &formats[1], &layouts[1], "-O", nil).command(formats[1].ouFlags), "spellings_per_case": len(S), "first_input_record": encode("csv", newInst(cat.templates[100], &formats[1], &layouts[1], "-O", nil).records([]string{"0x00ff", "1e5"})[:1])})
+	}
+}
+
+const batchA = 1000
+const blockA = 20 * batchA
+
+// spell grid: every string up to MaxLen x core readers x inference flags, dkvp in and out, x in the middle.
+func spellWorker(w *vf.Worker) {
+	var a poolArgs
+	json.Unmarshal(w.Args, &a)
+	cat := buildCatalogue()
+	var core []*tmpl
+	for _, t := range cat.templates {
+		if t.core {
+			core = append(core, t)
+		}
+	}
+	total := countStrings(a.MaxLen)
+	r := &runner{w: w, deadline: a.Deadline}
+	f := &formats[0]
+	l := &layouts[0]
+	var idx uint64
+	// block-major order: all readers see the short strings before anyone sees the long ones
+	for lo := uint64(0); lo < total; lo += blockA {
+		hi := lo + blockA
+		if hi > total {
+			hi = total
+		}
+		var block []string
+		for _, t := range core {
+			for _, flag := range inferFlags {
+				idx++
+				if !w.Mine(idx) {
+					continue
+				}
+				if r.overBudget() {
+					w.Inexhaustive(fmt.Sprintf("spell grid: time budget reached inside strings %d..%d of %d", lo, hi, total))
+					return
+				}
+				w.Begin(idx)
+				w.Label(func() string { return fmt.Sprintf("%s | %s | strings %d..%d", t.name, flag, lo, hi) })
+				if block == nil {
+					block = make([]string, 0, hi-lo)
+					for k := lo; k < hi; k++ {
+						block = append(block, nthString(k))
+					}
+				}
+				in := newInst(t, f, l, flag, nil)
+				keep, excl := domainFilter(in, block)
+				w.Count("spellings_outside_format_or_verb_domain(excluded)", excl)
+				w.Count("spellings_inside_domain", int64(len(keep)))
+				var tl tally
+				budget := 64
+				for i := 0; i < len(keep); i += batchA {
+					j := i + batchA
+					if j > len(keep) {
+						j = len(keep)
+					}
+					r.runBatch(in, keep[i:j], &tl, &budget)
+					w.Heartbeat()
+				}
+				r.flush(in, &tl)
+			}
+		}
+	}
+	if w.Shard == 0 {
+		w.Sample(map[string]any{"grid": "spell", "strings": total, "core_readers": len(core), "last_string": nthString(total - 1)})
+	}
+}
+
+// ---------------------------------------------------------------- orchestrator
+
+func run(c *vf.Ctx) {
+	c.Rule = "case = (reader template, inference flag, format pair, position of x, spelling): the spelling is the text of field x of one input record of an in-process mlr invocation (256 or 1000 records per invocation); oracle: every original field the template does not assign has byte-identical text in every output record carrying that record's id, and unassigned, unmoved original fields keep their relative order. A case is non-trivial when the x cell was found in the output and compared; all non-trivial cases are distinct by construction (distinct_nontrivial = compared x cells)"
+	c.Assume("JSON/YAML output and --ofmt are outside the property (documented re-renderings) and are not generated")
+	c.Assume("per-format domain predicates (codec.go:inDomainOne): dkvp no ','; tsv no TAB/backslash (TSV escapes); xtab no leading/trailing space (alignment padding); nidx non-empty and no space; no CR/LF in any format (line-ending normalisation is documented); csv cells starting with a BOM excluded. Excluded cells are counted")
+	c.Assume("a template that assigns a field (sec2gmt y, nest -f z, $y = ...) is checked on every OTHER field; fields a verb is documented to fill only when empty (fill-down, fill-empty, sparsify) are checked when non-empty; verbs documented to move fields (reorder, sort -b, cut -o, template, sort-within-records, uniq -g, count-distinct, join field) are exempt from the order clause for those fields only")
+	c.Assume("verbs that assign every field or emit no input field are excluded with a reason (coverage.excluded_verbs); forms assigning $x or $* are not generated (the property's own wording)")
+	c.Assume("an invocation that exits non-zero (reader aborts on the input, e.g. fraction on a non-number, or a generated function call that does not parse) emits nothing to compare: it is bisected to the offending records, which are counted as rejected, never as a verdict")
+	c.Assume("output records without the id of an input record (gap's empty records, stats1 -s summaries, emitf of oosvars) are skipped and counted")
+	c.Assume("nidx output has no keys: the key list of each output record is taken from a second run of the same command with --odkvp (keys only, never values); records whose cell count differs are skipped and counted")
+	c.Assume("numeric-only readers (fraction, stats2) get only spellings accepted by the check's own loose number grammar (spell.go:looksNumeric); identity-on-domain verbs (utf8-to-latin1, latin1-to-utf8: ASCII; unspace: no spaces) only values inside the documented identity domain")
+
+	cat := buildCatalogue()
+	quick := c.Quick()
+	start := time.Now()
+	var bud1, bud2 time.Duration
+	a := poolArgs{}
+	if quick {
+		a.MaxLen, a.S2Len = 4, 2
+		bud1, bud2 = 50*time.Second, 80*time.Second
+	} else {
+		a.MaxLen, a.S2Len = 5, 3
+		bud1, bud2 = 7*time.Minute, 13*time.Minute
+	}
+	if s := os.Getenv("VERIF_C03_MAXLEN"); s != "" {
+		a.MaxLen, _ = strconv.Atoi(s)
+	}
+	a.Deadline = start.Add(bud1).Unix()
+	res1 := c.RunPool(vf.PoolSpec{Worker: "readers", Shards: 192, Args: a})
+	a.Deadline = start.Add(bud2).Unix()
+	res2 := c.RunPool(vf.PoolSpec{Worker: "spell", Shards: 128, Args: a})
+
+	// ---- evidence
+	byPrefix := func(p string) map[string]int64 {
+		m := map[string]int64{}
+		for k, v := range c.Counters {
+			if strings.HasPrefix(k, p) {
+				m[k[len(p):]] = v
+				delete(c.Counters, k)
+			}
+		}
+		return m
+	}
+	verbHits := byPrefix("verb:")
+	c.Extra["x_cells_compared_per_verb"] = verbHits
+	c.Extra["x_cells_compared_per_flag"] = byPrefix("flag:")
+	c.Extra["x_cells_compared_per_format"] = byPrefix("format:")
+	c.Extra["x_cells_compared_per_position"] = byPrefix("layout:")
+	c.Extra["x_cells_compared_per_template_group"] = byPrefix("group:")
+	c.Extra["x_cells_compared_per_extra_main_option"] = byPrefix("mainopt:")
+	syms := byPrefix("sym:")
+	c.Extra["alphabet_symbol_hits_in_compared_x"] = syms
+	fnHits := byPrefix("fn:")
+	c.Extra["builtin_functions_applied_to_x"] = len(fnHits)
+	var fnSilent []string
+	fnAll := map[string]bool{}
+	for _, t := range cat.templates {
+		if strings.HasPrefix(t.group, "dslfn:") {
+			fnAll[t.group[6:]] = true
+		}
+	}
+	for f := range fnAll {
+		if fnHits[f] == 0 {
+			fnSilent = append(fnSilent, f)
+		}
+	}
+	sort.Strings(fnSilent)
+	c.Extra["builtin_functions_generated_but_never_emitting(parse/run error on every form)"] = fnSilent
+	c.Extra["builtin_functions_not_generated"] = cat.fnSkipped
+
+	eff := map[string]bool{}
+	for k := range res1.Sets["templates-effective"] {
+		eff[k] = true
+	}
+	for k := range res2.Sets["templates-effective"] {
+		eff[k] = true
+	}
+	var silent []string
+	nT := map[string]int{}
+	for _, t := range cat.templates {
+		g := t.group
+		if i := strings.IndexByte(g, ':'); i >= 0 {
+			g = g[:i]
+		}
+		nT[g]++
+		if !eff[t.name] && !strings.HasPrefix(t.group, "dslfn:") {
+			silent = append(silent, t.name)
+		}
+	}
+	c.Extra["templates_per_group"] = nT
+	c.Extra["templates_total"] = len(cat.templates)
+	c.Extra["templates_effective(x compared at least once)"] = len(eff)
+	c.Extra["templates_never_comparing_x(vacuous)"] = silent
+	c.Extra["templates_with_unidentified_output_not_declared"] = vf.SortedSet(res1, "templates-with-unidentified-output")
+	c.Extra["templates_rejecting_most_input"] = vf.SortedSet(res1, "templates-rejecting-most-input")
+	rr := vf.SortedSet(res1, "reject-reasons")
+	if len(rr) > 60 {
+		rr = rr[:60]
+	}
+	c.Extra["reject_reasons(sample)"] = rr
+	c.Extra["excluded_verbs"] = cat.excluded
+	c.Extra["uncovered_verbs(in lookup table, no template, not excluded)"] = cat.uncoveredVerbs
+	c.Extra["verb_options_no_template_uses"] = cat.verbOptions
+	c.Extra["verbs_in_lookup_table"] = len(verbHits) + len(cat.excluded) + len(cat.uncoveredVerbs) - boolInt(verbHits["(chain)"] > 0)
+	c.Extra["spell_grid_max_length"] = a.MaxLen
+	c.Extra["spell_grid_strings"] = countStrings(a.MaxLen)
+	c.Extra["readers_grid_spellings"] = len(s2(a.S2Len))
+	c.DistinctNontrivial = c.Counters["x_cells_compared"]
+
+	// vacuity guards that are harness bugs when they fire
+	for i := 0; i < len(alphabet); i++ {
+		if syms[string(alphabet[i])] == 0 {
+			c.Broken("alphabet symbol %q never appeared in a compared x cell", string(alphabet[i]))
+		}
+	}
+	if c.Exhaustive {
+		if len(silent) > 0 {
+			c.Broken("%d hand-written template(s) never compared an x cell (vacuous): %v", len(silent), silent[:min(len(silent), 8)])
+		}
+	}
+}
+
+func boolInt(b bool) int {
+	if b {
+		return 1
+	}
+	return 0
+}
